@@ -38,9 +38,11 @@ def run(lab, rel, line_no, option):
 
 
 TARGETS = ["[[p2]]", "[[p1#anchor]]", "[[sub/deep]]", "[[reading_list_epub]]", "[[notes/scan_png]]", "[^loc1]", "[#G1]", "[#G2]", "[@R1]", "[@R2]",
-           "240105#b2", "240107#c1", "[240101#a1]", "240110#0a3"]
+           "240105#b2", "240107#c1", "[240101#a1]", "240110#0a3", "[#note_1]", "[#noteX1]", "[@paper_1]", "[#item_9]"]
 PLAIN = ["see", "also", "foo", "P5x", "x1", "240101", "word"]
-PUNCT = [("", ""), ("(", ")"), ("", ","), ("", "."), ("", "?"), ("(", ");")]
+PUNCT = [("", ""), ("(", ")"), ("", ","), ("", "."), ("", "?"), ("(", ");"), ("!", ""), (",", ""), (":", ":"), ("", "("), (";", "!"), (".", "?")]
+ID_OWNER = {"G1": "p1.zo", "G2": "p2.zo", "note_1": "ids.zo", "noteX1": "ids2.zo"}
+RID_OWNER = {"R1": "p1.zo", "R2": "p2.zo", "paper_1": "ids.zo"}
 
 
 def expected_single(lab, t):
@@ -56,18 +58,21 @@ def expected_single(lab, t):
     if zid in owner:
         return f"EDIT {z}/{owner[zid]}\n"  # + a SEARCH line
     if t.startswith("[#"):
-        return f"EDIT {z}/{ {'G1': 'p1.zo', 'G2': 'p2.zo'}[t[2:-1]] }\n"
+        return f"EDIT {z}/{ID_OWNER[t[2:-1]]}\n" if t[2:-1] in ID_OWNER else "ECHO "  # an ID nobody owns is reported, nothing is opened
     if t.startswith("[@"):
-        return f"EDIT {z}/{ {'R1': 'p1.zo', 'R2': 'p2.zo'}[t[2:-1]] }\n"
+        return f"EDIT {z}/{RID_OWNER[t[2:-1]]}\n" if t[2:-1] in RID_OWNER else "ECHO "
     return None
 
 
 def lines_check(tier, seed):
     rng = random.Random(seed * 59 + 12)
-    n = 120 if tier == "quick" else 2000
+    n = 300 if tier == "quick" else 3000
     fails, samples, nontriv, evals = [], [], 0, 0
     pages = dict(C03.PAGES)
     pages["p1.zo"] = pages["p1.zo"].rstrip("\n") + "\n- 240110#0a3 a note whose ZID has three characters\n\n"
+    # IDs / RIDs that differ from each other only at a LIKE wildcard position or in letter case, owned by notes of different pages
+    pages["ids.zo"] = "# IDs\n\n- 240111#i1 owner of note_1 ID::note_1\n- 240111#i2 owner of paper_1 RID::paper_1\n\n"
+    pages["ids2.zo"] = "# IDs two\n\n- 240111#i3 owner of noteX1 ID::noteX1\n- 240111#i4 owner of NOTE_1 ID::NOTE_1\n- 240111#i5 paperA1 RID::paperA1\n- 240111#i6 itemX9 ID::itemX9\n\n"
     with Lab() as lab:
         for rel, t in pages.items():
             lab.write(rel, t)
@@ -128,7 +133,7 @@ def lines_check(tier, seed):
                     fails.append({**case, "error": f"single target {targets[0]}: expected output starting with {exp!r}, answered {out[:120]!r}"})
             if i < 2:
                 samples.append(case)
-    return {"name": "lines", "bound": f"{n} generated lines (kind, priority, modify date, 2- or 3-character primary ZID or none, 0-4 words of which targets of 14 kinds with 6 punctuation wrappings, .zo and .zoq pages) x every option index",
+    return {"name": "lines", "bound": f"{n} generated lines (kind, priority, modify date, 2- or 3-character primary ZID or none, 0-4 words of which targets of 18 kinds (incl. IDs differing only at a wildcard position or in case) with 12 punctuation wrappings (before and after), .zo and .zoq pages) x every option index",
             "evaluations": evals, "distinct_nontrivial": nontriv, "failures": fails, "samples": samples, "replay_fn": "replay_line"}
 
 
